@@ -555,6 +555,36 @@ example : DecodesTo utf8Mbr [97, 0xc3] [(1, 97)] .cut [0xc3] ∧
   refine ⟨?_, by decide⟩
   exact .cons _ 1 97 _ _ _ (by decide) (by decide) (by decide) (by decide) (.incomplete _ (by decide) (by decide))
 
+/-- THE CONVERSION STATE of `mbsnrtowcs` (the pending bytes of a character cut short by the previous
+    call on the same `*ps`, or on the internal state when `ps == NULL`): (1) from the initial state the
+    call is the single-call function of the theorems above; (2) a pending character is never skipped:
+    if `pend ++ input` does not start with a valid character — e.g. the new input starts with an ASCII
+    byte — the call fails with (size_t)-1, `*src` unchanged, nothing stored, state kept (seeded C14-16:
+    an ASCII fast path ignored `*ps`); (3) if it does, exactly the missing bytes are consumed and the
+    rest is converted from the initial state -/
+theorem mbsnrtowcs_state_spec (mbr : Bytes → MbRes) (pend src : Bytes) (srclen : Nat) :
+    (∀ dst, (mbsnrtowcsSt mbr [] src srclen dst).1 = mbsnrtowcs mbr src srclen dst) ∧
+    (∀ d : List Nat, src.take srclen ≠ [] → 0 < d.length → mbr (pend ++ src.take srclen) = .invalid →
+      mbsnrtowcsSt mbr pend src srclen (some d) = (⟨none, some 0, d⟩, pend)) ∧
+    (∀ (hasDst : Bool) (dstlen f off count len wc : Nat) (w : List Nat) (s : Bytes), s ≠ [] →
+      ¬ (hasDst = true ∧ count ≥ dstlen) → mbr (pend ++ s) = .char len wc →
+      mbsLoopSt mbr hasDst dstlen (f + 1) pend s off count w =
+        mbsLoopSt mbr hasDst dstlen f [] (s.drop (len - pend.length)) (off + (len - pend.length)) (count + 1)
+          (if hasDst then wc :: w else w)) :=
+  ⟨fun dst => mbsnrtowcsSt_initial mbr src srclen dst,
+   fun d hs hd hm => mbsnrtowcsSt_pending_invalid mbr pend src srclen d hs hd hm,
+   fun hasDst dstlen f off count len wc w s hs hr hm =>
+     mbsLoopSt_pending_char mbr hasDst dstlen f pend s off count len wc w hs hr hm⟩
+
+/-- "a\xC3" then "b\xA9" on one state: 1 and the lead byte pending; then -1, nothing stored (not 2 with
+    'b', U+00E9); "a\xC3" then "\xA9b": U+00E9, 'b' and the initial state again -/
+example :
+    mbsnrtowcsSt utf8Mbr [] [97, 0xc3] 2 (some [7, 7, 7]) = (⟨some 1, some 2, [97, 7, 7]⟩, [0xc3]) ∧
+    mbsnrtowcsSt utf8Mbr [0xc3] [98, 0xa9] 2 (some [7, 7, 7]) = (⟨none, some 0, [7, 7, 7]⟩, [0xc3]) ∧
+    mbsnrtowcsSt utf8Mbr [0xc3] [0xa9, 98] 2 (some [7, 7, 7]) = (⟨some 2, some 2, [0xe9, 98, 7]⟩, []) ∧
+    mbsnrtowcsSt utf8Mbr [0xf0, 0x9f] [0x98] 1 (some [7]) = (⟨some 0, some 1, [7]⟩, [0xf0, 0x9f, 0x98]) := by
+  decide
+
 /-- the unrepaired `mbsnrtowcs` assigned `*src` with a NULL destination -/
 theorem mbsnrtowcs_unrepaired_violates :
     mbsnrtowcsOldSrcp utf8Mbr [97, 98] 2 = some 2 ∧ (mbsnrtowcs utf8Mbr [97, 98] 2 none).srcp = some 0 := by
